@@ -664,10 +664,131 @@ def reset_discipline(rep, rule, idx, class_specs, allowed=(), allowed_init=(), a
             rep.bad(rule, site, f"register `{name}` takes part in the domain reset",
                     f"created with reset_less={val}: after a reset of the clock domain it keeps its old value instead of returning to its "
                     "initial value, so the component does not start from the documented initial state", line=ln)
+        el = cls.method("elaborate")
+        if el is not None:
+            try:
+                from .common import get_ctx
+                like_registers(rep, rule, idx, get_ctx(idx, el), allowed=set(allowed_init))
+            except Exception as e_:                        # the walk itself is judged by the property's main rule
+                rep.note(f"like_registers({cls.qual}): {type(e_).__name__}: {e_}") if hasattr(rep, "note") else None
         if not bad:
             rep.ok(rule, cls.site, f"registers of {cls.qual} take part in the domain reset", f"{n_sig} Signal constructor(s), none reset-less"
                    + (f" beyond the {len([a for a in allowed if a[0] == cls.qual])} deliberate one(s)" if any(a[0] == cls.qual for a in allowed) else ""),
                    nontrivial=n_sig > 0)
+
+
+def _member_inits(idx, member):
+    """Every declaration of a signature member called `member` in the package's signature classes: [(class, call node, non-zero
+    init keyword or None)].  A declaration is a Dict entry / subscript store whose value is a call (In(...), Out(...))."""
+    import ast as _ast
+    out = []
+    for cls in idx.all_classes():
+        if not any(b.split(".")[-1] == "Signature" for b in cls.bases):
+            continue
+        for n in _ast.walk(cls.node):
+            vals = []
+            if isinstance(n, _ast.Dict):
+                vals = [v for k, v in zip(n.keys, n.values) if isinstance(k, _ast.Constant) and k.value == member and isinstance(v, _ast.Call)]
+            elif isinstance(n, _ast.Assign) and len(n.targets) == 1 and isinstance(n.targets[0], _ast.Subscript) and \
+                    isinstance(n.targets[0].slice, _ast.Constant) and n.targets[0].slice.value == member and isinstance(n.value, _ast.Call):
+                vals = [n.value]
+            for v in vals:
+                bad = [k for k in v.keywords if k.arg in ("init", "reset") and not (isinstance(k.value, _ast.Constant) and k.value.value in (0, False))]
+                out.append((cls, v, bad[0] if bad else None))
+    return out
+
+
+def like_registers(rep, rule, idx, c, allowed=()):
+    """`Signal.like(T)` copies T's initial value.  A *register* (driven in a clocked domain) created that way starts where T
+    starts: T must be a signature member that no signature class declares with a non-zero init, or a signal this elaborate()
+    creates without one.  The same holds for a wire that is only driven under conditions: whenever no assignment is active it
+    shows its initial value.  (A wire with an unconditional combinational driver never does.)"""
+    import ast as _ast
+    site = c.fi.site
+    n = 0
+    for s in c.t.sigs.values():
+        if s.ctor[0] != 'call' or s.ctor[1] != ('attr', ('name', 'Signal'), 'like') or not s.ctor[2]:
+            continue
+        S = ('sig', s.id, s.name)
+        whole = c.drivers_of(S)
+        doms = {dd.domain for dd in whole} | {dom for dom, t, ds in c.targets_matching(lambda t: t[0] == 'sub' and t[1] == S)}
+        if not (doms - {"comb"}) and any(not dd.dsl for dd in whole):
+            continue                                        # a wire with an unconditional combinational driver never shows its initial value
+        if s.kw('init') is not None or s.kw('reset') is not None or (c.fi.cls is not None and (c.fi.cls.qual, s.name) in allowed):
+            continue                                        # an explicit initial value overrides the copy (judged by reset_discipline)
+        n += 1
+        what = f"`{s.name}` = Signal.like(...) starts at / defaults to 0"
+        tmpl = c.norm(s.ctor[2][0])
+        if tmpl[0] == 'sig':
+            t_ = c.t.sigs.get(tmpl[1])
+            iv = (t_.kw('init') or t_.kw('reset')) if t_ is not None else None
+            if t_ is not None and t_.ctor[1] == ('name', 'Signal') and (iv is None or iv in (('const', 0), ('const', False))):
+                rep.ok(rule, site, what, f"modelled on the local signal `{t_.name}`, created without an initial value", nontrivial=False)
+            else:
+                rep.unk(rule, site, what, f"modelled on `{ir.show(tmpl)}`, whose initial value is not 0 or not known")
+            continue
+        if tmpl[0] == 'attr':
+            decls = _member_inits(idx, tmpl[2])
+            if decls:
+                badd = [(k_, v, b) for k_, v, b in decls if b is not None]
+                if badd:
+                    k_, v, b = badd[0]
+                    rep.bad(rule, k_.site, what, f"modelled on `{ir.show(tmpl)}`; {k_.qual} declares member `{tmpl[2]}` as {_ast.unparse(v)[:80]}: "
+                            f"Signal.like copies that initial value into the register `{s.name}` of {c.fi.qual}", line=v.lineno)
+                else:
+                    rep.ok(rule, site, what, f"modelled on member `{tmpl[2]}`, declared without an initial value in {len(decls)} signature class(es)",
+                           nontrivial=False)
+                continue
+        if tmpl[0] == 'attr' and tmpl[1] == ('name', 'self') and c.fi.cls is not None:
+            # a signal the component itself created in its constructor
+            made = None
+            for k_ in [c.fi.cls] + idx.bases_of(c.fi.cls):
+                i_ = k_.method("__init__")
+                if i_ is None:
+                    continue
+                for st in _ast.walk(i_.node):
+                    if isinstance(st, _ast.Assign) and any(isinstance(t, _ast.Attribute) and t.attr == tmpl[2] and isinstance(t.value, _ast.Name) and
+                                                          t.value.id == "self" for t in st.targets) and isinstance(st.value, _ast.Call):
+                        made = st.value
+            if made is not None and _ast.unparse(made.func) == "Signal":
+                iv = [k for k in made.keywords if k.arg in ("init", "reset")]
+                if not iv or (isinstance(iv[0].value, _ast.Constant) and iv[0].value.value in (0, False)):
+                    rep.ok(rule, site, what, f"modelled on self.{tmpl[2]}, created without an initial value", nontrivial=False)
+                elif isinstance(iv[0].value, _ast.Constant):
+                    rep.bad(rule, site, what, f"modelled on self.{tmpl[2]}, created with {iv[0].arg}={_ast.unparse(iv[0].value)}: Signal.like copies it")
+                else:
+                    rep.unk(rule, site, what, f"modelled on self.{tmpl[2]}, created with {iv[0].arg}={_ast.unparse(iv[0].value)}: `{s.name}` starts at / "
+                            "defaults to that value, not 0; whether that is intended is not decided")
+                continue
+            # a port of the component: declared in the members it hands to super().__init__
+            decl = []
+            for k_ in [c.fi.cls] + idx.bases_of(c.fi.cls):
+                for n_ in _ast.walk(k_.node):
+                    if isinstance(n_, _ast.Dict):
+                        decl += [v for kk, v in zip(n_.keys, n_.values) if isinstance(kk, _ast.Constant) and kk.value == tmpl[2] and isinstance(v, _ast.Call)]
+            if decl:
+                badk = [k for v in decl for k in v.keywords if k.arg in ("init", "reset") and not (isinstance(k.value, _ast.Constant) and k.value.value in (0, False))]
+                if badk:
+                    rep.bad(rule, site, what, f"modelled on the port self.{tmpl[2]}, declared with {badk[0].arg}={_ast.unparse(badk[0].value)}: Signal.like copies it")
+                else:
+                    rep.ok(rule, site, what, f"modelled on the port self.{tmpl[2]}, declared without an initial value", nontrivial=False)
+                continue
+            rep.unk(rule, site, what, f"modelled on self.{tmpl[2]}, whose creation was not found")
+            continue
+        # the template's initial value cannot be read off: a table-built member without any init= in the package is still fine
+        any_init = False
+        for cls in idx.all_classes():
+            if any(b.split(".")[-1] == "Signature" for b in cls.bases):
+                for x in _ast.walk(cls.node):
+                    if isinstance(x, _ast.Call) and any(k.arg in ("init", "reset") or k.arg is None for k in x.keywords) and \
+                            _ast.unparse(x.func).split(".")[-1] in ("In", "Out", "flow"):
+                        any_init = True
+        if tmpl[0] == 'attr' and not any_init:
+            rep.ok(rule, site, what, f"modelled on `{ir.show(tmpl)}`; no signature class of the package declares a member with an initial value",
+                   nontrivial=False)
+        else:
+            rep.unk(rule, site, what, f"modelled on `{ir.show(tmpl)[:60]}`, whose initial value cannot be read off")
+    return n
 
 
 def iterable_handover(rep, rule, idx, ctor_spec, param, sink_call, sink_kw):
